@@ -23,7 +23,7 @@ RULE = (
 )
 ASSUMPTIONS = [
     "reduced dimensions have size >= 2 (a single-argument backend call means 'reduce the whole array'); backend_kwargs are not generated",
-    "values are small integers stored as float64 so batching cannot hide behind a tolerance; mean/std/divide/power compare with rtol 1e-9",
+    "values are small integers stored as float64 so batching cannot hide behind a tolerance; comparison with rtol 1e-9 and atol 1e-7 (the batched std is sqrt(E[x^2]-E[x]^2): cancellation near zero leaves sqrt(eps))",
     "the dimension order after broadcast is xarray's (only the set of dims is compared there); scalar (non-dimension) coordinates are ignored",
     "graphs are evaluated by a reference interpreter (substitution), not lowered or scheduled: that is C10/C01",
     "programs over xarray internals end as soon as a value is NaN: xarray reductions skip NaN by default (known finding F32 of C15)",
@@ -82,7 +82,7 @@ def compare(action, m: Model, step: int, op, order_strict: bool) -> Model:
         exp = np.asarray(m.M[idx], dtype="float64")
         if got.shape != exp.shape:
             raise Violation(f"after step {step} {op}: at {dict(zip(dims, idx))} value shape {got.shape} expected {exp.shape}", "value-shape")
-        if not np.allclose(got, exp, rtol=1e-9, atol=1e-12, equal_nan=True):
+        if not np.allclose(got, exp, rtol=1e-9, atol=1e-7, equal_nan=True):
             raise Violation(f"after step {step} {op}: at index {dict(zip(dims, idx))} value {got.tolist()} expected {exp.tolist()}", "value")
     return m
 
@@ -102,6 +102,10 @@ def run_case(prog) -> tuple[bool, list[str]]:
         except Exception as e:
             raise Violation(f"step {i} {op} raised {type(e).__name__}: {e}", "op-raises")
         classes.update(tags)
+        if prog["src"]["xr"] and not np.isfinite(m.M).all():
+            # see below: non-finite values (inf * 0 inside a reduction becomes NaN) leave the domain in which NumPy is the reference
+            classes.add("nan_in_xarray_program_stopped")
+            break
         m = compare(a, m, i, op, "order_unspecified" not in tags)
         if prog["src"]["xr"] and np.isnan(m.M).any():
             # xarray reductions skip NaN by default (recorded as known finding F32 under C15): once a NaN exists the NumPy model is
